@@ -1,7 +1,56 @@
 import Lox.Drv.Common
-/-! Driver ops of the Lex vertical: `handle op payload` answers one protocol line, `none` = unknown op. -/
-namespace Lox.Lex
+import Lox.Lex.Model
+/-! Driver ops of the Lex vertical.
 
-def handle (_op _payload : String) : Option String := none
+`lex.run <fuel> | mode0 ; mode1 ; … | r1 w1 r2 w2 …`
+   answer: tokens `T<type>:<start>-<end>`, `E@<start>:<rune>`, `EOF@<pos>` then `ok|timeout|panic`
+`lex.push | modes | <token state mode(-1=nil) stack…> | r`
+   answer: `<res> <token> <state> <mode> <stack…>` -/
+namespace Lox.Lex
+open Lox.Drv
+
+def parseModes (s : String) : Option (Array Mode) :=
+  ((s.splitOn ";").mapM fun m => (parseInts m).map List.toArray).map List.toArray
+
+def toPairs : List Int → Option (List (Int × Nat))
+  | [] => some []
+  | r :: w :: rest => (toPairs rest).map ((r, w.toNat) :: ·)
+  | _ => none
+
+def showTok : Tok → String
+  | .tok ty a b => "T" ++ toString ty ++ ":" ++ toString a ++ "-" ++ toString b
+  | .err a c => "E@" ++ toString a ++ ":" ++ toString c
+  | .eof p => "EOF@" ++ toString p
+
+def showRes : Res → String
+  | .consume => "0" | .accept => "1" | .discard => "2" | .tryAgain => "3" | .eof => "4"
+  | .error => "-1" | .oob => "panic"
+
+def handle (op payload : String) : Option String :=
+  match op with
+  | "lex.run" => do
+    match payload.splitOn "|" with
+    | [fuel, modes, inp] =>
+      let fuel ← (fuel.trimAscii.toString).toNat?
+      let modes ← parseModes modes
+      let inp ← parseInts inp >>= toPairs
+      let (toks, st) := lexAll modes inp.toArray fuel fuel {} []
+      some (" ".intercalate (toks.map showTok ++ [st]))
+    | _ => none
+  | "lex.push" => do
+    match payload.splitOn "|" with
+    | [_, modes, st, r] =>
+      let modes ← parseModes modes
+      let st ← parseInts st
+      let r ← parseInt r.trimAscii.toString
+      match st with
+      | tok :: state :: mode :: stack =>
+        let sm : SM := { token := tok, state := state, mode := if mode < 0 then none else some mode.toNat,
+                         modeStack := stack.map Int.toNat }
+        let (res, sm') := pushRune modes sm r
+        some (showRes res ++ " " ++ showInts ([sm'.token, sm'.state, (sm'.mode.map Int.ofNat).getD (-1)] ++ sm'.modeStack.map Int.ofNat))
+      | _ => none
+    | _ => none
+  | _ => none
 
 end Lox.Lex
